@@ -14,6 +14,7 @@ import (
 	"strconv"
 	"strings"
 	"sync"
+	"sync/atomic"
 	"time"
 
 	"github.com/blugelabs/bluge"
@@ -168,36 +169,38 @@ func sameDV(a, b []DV) bool {
 // ---- the world ----
 
 type WorldOpts struct {
-	DirKind     string // sim | fs | mem
-	Path        string // for fs
-	Unsafe      bool
-	SegVersion  uint32 // 1 or 2
-	Merges      string // off | small | default
-	MemMergeMin int    // MinSegmentsForInMemoryMerge (0 = default 2)
-	KeepN       int    // deletion policy N (0 = default 1)
-	Universe    int
-	OpDelayUs   int // random delay before each simulated directory operation
-	Image       map[string][]byte
+	DirKind        string // sim | fs | mem
+	Path           string // for fs
+	Unsafe         bool
+	SegVersion     uint32 // 1 or 2
+	Merges         string // off | small | default
+	MemMergeMin    int    // MinSegmentsForInMemoryMerge (0 = default 2)
+	KeepN          int    // deletion policy N (0 = default 1)
+	Universe       int
+	OpDelayUs      int // random delay before each simulated directory operation
+	Image          map[string][]byte
+	Poison         bool // SimDir wipes the bytes of a segment when its handle is closed (use-after-release shows)
 	HoldMergeIntro bool // park the merger at EventKindMergeTaskIntroductionStart until ReleaseMerge (or 3 s)
 }
 
 type World struct {
-	O       WorldOpts
-	Rec     *sim.Recorder
-	Dir     *sim.SimDir
-	RDir    *sim.RecDir // DirKind fsrec: the real FileSystemDirectory behind the recorder
-	Cfg     bluge.Config
-	W       *bluge.Writer
-	rng     *rand.Rand
-	mu      sync.Mutex
-	pending []pendingBatch
-	nextKey int
-	nextV   int
-	Specs   map[int]BatchSpec
-	AsyncErrs []string
-	Observed  []Observation
-	afterRet  []afterRet
-	mergeGate chan struct{}
+	O          WorldOpts
+	Rec        *sim.Recorder
+	Dir        *sim.SimDir
+	RDir       *sim.RecDir // DirKind fsrec: the real FileSystemDirectory behind the recorder
+	Cfg        bluge.Config
+	W          *bluge.Writer
+	rng        *rand.Rand
+	mu         sync.Mutex
+	pending    []pendingBatch
+	nextKey    int
+	nextV      int
+	Specs      map[int]BatchSpec
+	AsyncErrs  []string
+	Observed   []Observation
+	afterRet   []afterRet
+	mergeGate  chan struct{}
+	inflight   int32 // Batch calls in progress
 	MergesHeld int
 }
 
@@ -241,6 +244,7 @@ func (w *World) config() bluge.Config {
 				}
 			}
 		}
+		w.Dir.PoisonOnClose = w.O.Poison
 		d := w.Dir
 		cfg = bluge.DefaultConfigWithDirectory(func() index.Directory { return d })
 	case "fsrec":
@@ -441,7 +445,9 @@ func (w *World) Do(b BatchSpec, callback bool) error {
 		})
 	}
 	w.Rec.Add(&sim.Event{Kind: "batch-call", Batch: b.Key})
+	atomic.AddInt32(&w.inflight, 1)
 	err := w.W.Batch(bb)
+	atomic.AddInt32(&w.inflight, -1)
 	e := ""
 	if err != nil {
 		e = err.Error()
@@ -893,6 +899,9 @@ func (w *World) DirImage() map[string][]byte {
 	}
 	return w.Dir.Image()
 }
+
+// Idle: no Batch call is in progress.
+func (w *World) Idle() bool { return atomic.LoadInt32(&w.inflight) == 0 }
 
 // ReleaseMerge lets one parked merge introduction proceed.
 func (w *World) ReleaseMerge() {
